@@ -6,6 +6,8 @@ from symx.proto import (Entropy, setup_hash_axioms, outcome, okind, orders, new_
                         abstract_params, klass, PEER, SIDE_BYTE)
 
 PID = "C11"
+TECHNIQUE = 'symbolic execution of unbiased_randrange / random_scalar with symbolic range and entropy bytes (up to D draws): z3 decides request sizes, candidate = value mod 2^bits, rejection condition, range; entropy discipline of the classes'
+LEVEL_NOTE = 'counting argument for uniformity; loop body memoryless; entropy sources return exactly the requested number of bytes'
 EXPLANATION = (
     "The real util.unbiased_randrange/generate_mask/random_list_of_ints/mask_list_of_ints/list_of_ints_to_number, "
     "IntegerGroup.random_scalar and ed25519_basic.random_scalar run on symbolic start, symbolic range width (bit "
